@@ -66,6 +66,12 @@ def _skip_form(t, base, w):
 
 
 def check(run):
+    _check_own(run)
+    from .copylib import copy_protocol
+    copy_protocol(run, run.prog, run.prog.find_class(CLS))    # a copied reservoir keeps its weight, skip target and arrival count
+
+
+def _check_own(run):
     prog = run.prog
     cls = prog.find_class(CLS)
     run.need(cls is not None, f"anchor class {CLS} vanished")
